@@ -70,6 +70,18 @@ void runEnc(const json& ep)
             logState(o, enc);
             o.end();
         }
+        else if (name == "recopy")
+        {
+            // the encoder is copied in the middle of its life and the copy is used from here on (copy construction
+            // and copy assignment): a copy is the same encoder
+            Encoder copy(enc);
+            Encoder other;
+            other = copy;
+            enc = other;
+            o.obj().kv("e", "enc.recopy");
+            logState(o, enc);
+            o.end();
+        }
         else if (name == "encode")
         {
             std::vector<Packet> batch;
